@@ -65,6 +65,56 @@ def _assemble(cli, files, workdir, argv, paired, tag):
         outfiles.close()
 
 
+CUT_MENU = [[-3, 5], [5, -3], [4], [-2], [0, 4], [-2, 0], [0], [7, -1], [-1, 7]]
+PROBE = "ABCDEFGHIJKLMNOPQRSTUVWXYZ"
+
+
+def _cut_values(cli, files, workdir, cuts, paired, tag):
+    """the signed lengths of the unconditional cuts in the order in which the assembled pipeline applies them, observed from what each
+    cutter removes from a probe read (paired: the R1 cutters for `-u`, the R2 cutters for `-U`)"""
+    import dnaio
+    info = importlib.import_module("cutadapt.info")
+    d = os.path.join(workdir, tag)
+    os.makedirs(d, exist_ok=True)
+    argv = [t for c in cuts for t in ("-u", str(c))]
+    if paired:
+        argv += [t for c in cuts for t in ("-U", str(c))]
+        argv += ["-o", os.path.join(d, "out.1.fastq"), "-p", os.path.join(d, "out.2.fastq"), "in.1.fastq", "in.2.fastq"]
+    else:
+        argv += ["-o", os.path.join(d, "out.fastq"), "in.fastq"]
+    args = cli.get_argument_parser().parse_args(argv)
+    cli.check_arguments(args, paired)
+    adapters, adapters2 = cli.adapters_from_args(args)
+    outfiles = files.OutputFiles(proxied=False, qualities=True, file_opener=files.FileOpener(threads=0), interleaved=False)
+    try:
+        pipeline = cli.make_pipeline_from_args(args, files.FileFormat.FASTQ, outfiles, paired, adapters, adapters2)
+        mods = []
+        for m in pipeline._modifiers:
+            if paired:
+                assert type(m).__name__ == "PairedEndModifierWrapper", type(m).__name__
+                mods.append((m._modifier1, m._modifier2))
+            else:
+                mods.append((m, None))
+        seen = ([], [])
+        for pair in mods:
+            for side in (0, 1):
+                m = pair[side]
+                if m is None:
+                    continue
+                assert type(m).__name__ == "UnconditionalCutter", type(m).__name__
+                rec = dnaio.SequenceRecord("probe", PROBE, "I" * len(PROBE))
+                out = m(rec, info.ModificationInfo(rec)).sequence
+                assert out and out in PROBE and out != PROBE, out
+                seen[side].append(PROBE.index(out) if PROBE.index(out) > 0 else len(out) - len(PROBE))
+        return seen
+    finally:
+        outfiles.close()
+
+
+def _lean_ints(xs):
+    return "[" + ", ".join(str(x) if x >= 0 else f"({x})" for x in xs) + "]"
+
+
 def _lean_str(s):
     assert all(32 <= ord(c) < 127 and c not in '"\\' for c in s), s
     return '"' + s + '"'
@@ -90,6 +140,11 @@ def generate(build_dir):
         paired_rename, _ = _assemble(cli, files, workdir, SINGLE_RENAME + PAIRED_EXTRA, True, "pr")
         _, steps_single = _assemble(cli, files, workdir, STEPS, False, "ss")
         _, steps_paired = _assemble(cli, files, workdir, STEPS + STEPS_PAIRED_EXTRA, True, "sp")
+        cut_rows = []
+        for k, cuts in enumerate(CUT_MENU):
+            s1, _ = _cut_values(cli, files, workdir, cuts, False, f"c{k}")
+            p1, p2 = _cut_values(cli, files, workdir, cuts, True, f"cp{k}")
+            cut_rows.append((cuts, s1, p1, p2))
     finally:
         shutil.rmtree(workdir, ignore_errors=True)
     out = ["/-! GENERATED from /repo's working tree by gen/gen_stageorder.py — do not edit.",
@@ -106,5 +161,9 @@ def generate(build_dir):
            "/-- `" + " ".join(t.replace("@", "") for t in STEPS) + "` -/",
            f"def stepOrderSingle : List String := {_lean_list(steps_single)}", "",
            f"def stepOrderPaired : List String := {_lean_list(steps_paired)}", "",
+           "/-- unconditional cuts: (`-u` values as given (paired: also given as `-U`), cuts applied single-end, paired-end to R1, to R2), each",
+           "    observed from what the assembled modifiers remove from a probe read, in pipeline order -/",
+           "def cutOrder : List (List Int × List Int × List Int × List Int) := [" +
+           ", ".join(f"({_lean_ints(c)}, {_lean_ints(a)}, {_lean_ints(b)}, {_lean_ints(d)})" for c, a, b, d in cut_rows) + "]", "",
            "end Cutadapt.Generated", ""]
     return "StageOrder.lean", "\n".join(out)
